@@ -187,8 +187,64 @@ func keyIdx(k string) int {
 	return -1
 }
 
-func exec(m *mutable.CopyOnWriteMap[string, int], in input, y *yielder) (out output) {
+func exec(m *mutable.CopyOnWriteMap[string, int], in input, y *yielder, viaWrapper bool) (out output) {
 	k := keyNames[in.K]
+	if viaWrapper {
+		// the same map used through the generic fp.Map wrapper (fp.MakeMap(&cow)): the wrapper must
+		// reach the map's own atomic operations
+		wm := fp.MakeMap[string, int](m)
+		switch in.Op {
+		case opGet:
+			o := wm.Get(k)
+			if o.IsDefined() {
+				out.Ok, out.V = true, o.Get()
+			}
+			return
+		case opUpdated:
+			wm.Updated(k, in.V)
+			return
+		case opRemoved:
+			if in.K2 >= 0 {
+				wm.Removed(k, keyNames[in.K2])
+			} else {
+				wm.Removed(k)
+			}
+			return
+		case opUpdatedWith:
+			wm.UpdatedWith(k, func(o fp.Option[int]) fp.Option[int] {
+				y.maybe()
+				switch in.Mode {
+				case 0:
+					if o.IsDefined() {
+						return o
+					}
+					return fp.Some(in.V)
+				case 1:
+					return fp.None[int]()
+				}
+				if o.IsDefined() {
+					return fp.Some(in.V)
+				}
+				return o
+			})
+			return
+		case opSize:
+			out.N = wm.Size()
+			return
+		case opIterator:
+			it := wm.Iterator()
+			for it.HasNext() {
+				t := it.Next()
+				i := keyIdx(t.I1)
+				if i < 0 || out.Snap[i] != 0 || t.I2 == 0 {
+					out.Bad = true
+					continue
+				}
+				out.Snap[i] = t.I2
+			}
+			return
+		}
+	}
 	switch in.Op {
 	case opGet:
 		o := m.Get(k)
@@ -242,6 +298,7 @@ func exec(m *mutable.CopyOnWriteMap[string, int], in input, y *yielder) (out out
 }
 
 type plan struct {
+	Wrapper  bool       `json:"via_fp_Map_wrapper,omitempty"`
 	Palette  []string   `json:"op_kinds"`
 	Keys     int        `json:"keys"`
 	Prefill  []string   `json:"prefill"`
@@ -332,6 +389,11 @@ func runHistory(w *vrt.W, i int) {
 	defer mutable.VerifSetYield(nil)
 
 	m := &mutable.CopyOnWriteMap[string, int]{}
+	viaWrapper := r.IntN(3) == 0
+	p.Wrapper = viaWrapper
+	if viaWrapper {
+		w.Add("histories.through_fp.Map_wrapper", 1)
+	}
 	var clock atomic.Int64
 	var mu sync.Mutex
 	var recs []recOp
@@ -344,7 +406,7 @@ func runHistory(w *vrt.W, i int) {
 				}
 			}()
 			rec.call = clock.Add(1)
-			rec.out = exec(m, in, y)
+			rec.out = exec(m, in, y, viaWrapper)
 			rec.ret = clock.Add(1)
 		}()
 		if rec.panicked != "" {
@@ -449,7 +511,11 @@ func runHistory(w *vrt.W, i int) {
 		w.Add("inconclusive.checker_timeout", 1)
 	case porcupine.Illegal:
 		w.Add("porcupine.illegal", 1)
-		w.Violation(i, "CopyOnWriteMap/not-linearizable:"+strings.Join(p.Palette, "+"), "no linearization of this history exists against the sequential map model:\n"+strings.Join(desc(), "\n"), map[string]any{"plan": p, "history": desc()})
+		via := ""
+		if viaWrapper {
+			via = "(via-fp.Map)"
+		}
+		w.Violation(i, "CopyOnWriteMap"+via+"/not-linearizable:"+strings.Join(p.Palette, "+"), "no linearization of this history exists against the sequential map model:\n"+strings.Join(desc(), "\n"), map[string]any{"plan": p, "history": desc()})
 		return
 	}
 	if overlap {
@@ -479,22 +545,29 @@ func main() {
 			if tier == "thorough" {
 				return 6000
 			}
-			return 600
+			return 2400
 		},
 		RaceBatch:   func(string, int) bool { return true },
 		WorkerProcs: 4,
 		Run: func(w *vrt.W) {
 			for i := w.From; i < w.To; i++ {
-				runHistory(w, i)
+				switch i % 16 {
+				case 7:
+					valueKindCase(w, i)
+				case 15:
+					gcChurnCase(w, i)
+				default:
+					runHistory(w, i)
+				}
 			}
 		},
-		Rule: "case = one short concurrent history on a fresh CopyOnWriteMap: optional sequential prefill, then 2-4 goroutines released by a barrier each applying 3-6 operations drawn from a small palette (Get plus 2-3 of Updated/Removed(1-2 keys)/UpdatedWith{set-if-absent,delete,replace-if-present}/ComputeIfAbsent/ComputeIf(odd?)/Size/Iterator; every 8 cases include focused mixes: ComputeIfAbsent only, ComputeIfAbsent+Removed, ComputeIf+Updated) over 1-3 keys with unique written values; PRNG-chosen runtime.Gosched bursts at the verif hook points (entry of load/copyOnWrite) and inside the user callbacks; call/return ticks from one atomic counter at the client boundary; porcupine decides linearizability against a sequential map model (10 s timeout => inconclusive), a recovered panic or differing ComputeIfAbsent results are violations; worker built with -race. distinct_nontrivial counts distinct observed histories (call/return order + outputs) in which two operations of different goroutines on the same key overlapped in time.",
+		Rule: "case = one short concurrent history on a fresh CopyOnWriteMap: optional sequential prefill, then 2-4 goroutines released by a barrier each applying 3-6 operations drawn from a small palette (Get plus 2-3 of Updated/Removed(1-2 keys)/UpdatedWith{set-if-absent,delete,replace-if-present}/ComputeIfAbsent/ComputeIf(odd?)/Size/Iterator; every 8 cases include focused mixes: ComputeIfAbsent only, ComputeIfAbsent+Removed, ComputeIf+Updated) over 1-3 keys with unique written values; PRNG-chosen runtime.Gosched bursts at the verif hook points (entry of load/copyOnWrite) and inside the user callbacks; call/return ticks from one atomic counter at the client boundary; porcupine decides linearizability against a sequential map model (10 s timeout => inconclusive), a recovered panic or differing ComputeIfAbsent results are violations; worker built with -race. One history in three drives the map through the generic fp.Map wrapper (fp.MakeMap(&cow)). Every 16th case is a value-kind case (V = float64 with +0/-0, any / struct{any} holding uncomparable values, []int: every write must be observable bit/identity exact, concurrent writers must not panic) and every 16th a gc-churn case (a ComputeIfAbsent parked in f() while another call stores the key, GC cycles run and up to 400 unrelated writes publish new snapshots). distinct_nontrivial counts distinct observed histories (call/return order + outputs) in which two operations of different goroutines on the same key overlapped in time.",
 		Assumptions: []string{
 			"interleavings come from real goroutine scheduling with injected yields: sampled, not enumerated",
 			"the sequential model: Get/Updated/Removed/UpdatedWith/ComputeIfAbsent/ComputeIf/Size/Iterator on a 3-key map with unique values",
 		},
 		Floors: func(tier string) map[string]int64 {
-			return map[string]int64{"histories.with_overlap_on_a_key": 500, "porcupine.ok": 1000, "computeifabsent.groups_checked": 100,
+			return map[string]int64{"histories.with_overlap_on_a_key": 500, "porcupine.ok": 1000, "computeifabsent.groups_checked": 100, "histories.through_fp.Map_wrapper": 500, "valuekind.cases": 100, "hit.valuekind.float64": 20, "hit.valuekind.any": 20, "hit.valuekind.struct{any}": 20, "hit.valuekind.[]int": 20, "gc_churn.rounds": 100,
 				"hit.ComputeIfAbsent": 100, "hit.ComputeIf": 100, "hit.Updated": 100, "hit.Removed": 100, "hit.UpdatedWith": 100, "hit.Size": 100, "hit.Iterator": 100, "hit.Get": 100}
 		},
 	})
